@@ -26,7 +26,7 @@ import ast
 
 from ..astutil import attr_chain, bind_args, callee_name, calls, is_name, is_self_attr, names_in, text, unwrap_await
 from ..core import Result
-from ..flow import MustFlow
+from ..flow import MustFlow, node_calls
 from ..model import AnchorMissing, Repo, fold_str, walk_no_nested
 
 PID = "C15"
@@ -210,7 +210,7 @@ def run(repo: Repo) -> Result:
 
         def visit(node, st):
             if isinstance(node, ast.Return):
-                for c in calls(node):
+                for c in node_calls(node):
                     if callee_name(c) == target:
                         seen["ok"] = "checked" in st
 
